@@ -503,8 +503,12 @@ func TestC34(t *testing.T) {
 	limit := rec.Pick(2000, 9000)
 	masks := []byte{0x01, 0x80}
 	if rec.Thorough() {
-		masks = []byte{0x01, 0x02, 0x10, 0x80, 0xff}
+		// two masks per shard, derived from the shard's seed (the driver runs
+		// shards with seeds S, S+1, …), so the shards cover different masks
+		sd := uint64(rec.Seed())
+		masks = []byte{byte(1) << (sd % 8), byte((sd*37+11)%254) + 2}
 	}
+	rec.SetExtra("exhaustive_flip_masks", fmt.Sprintf("%#02x", masks))
 	swept := 0
 	for _, b := range bases {
 		if len(b.Bytes) > limit {
